@@ -329,6 +329,57 @@ func (pp c08) Run(c *core.Ctx, idx int) {
 			return node.NewBrowser(s.Mod, n)
 		}
 	}
+	useXML := idx%8 == 5 && !useGo && !useJSON
+	if useXML {
+		// an XML document as the data: key elements of numbers are also spelled the ways XML Schema allows besides the
+		// canonical one (+15, 007, 1.50): the entry is still the one with key 15, 7, 1.5
+		storeName = "xml"
+		spelled := t.Clone()
+		var respell func(d *dp.DNode)
+		respell = func(d *dp.DNode) {
+			for _, l := range d.Lists {
+				for _, e := range l.Entries {
+					for _, kn := range l.S.Keys {
+						ks, v := l.S.Child(kn), e.Leaves[kn].V[0]
+						if ks.Type.Wrap != "" || r.Intn(2) == 0 {
+							continue
+						}
+						switch ks.Type.Base {
+						case "int8", "int16", "int32", "int64", "uint8", "uint16", "uint32", "uint64":
+							// (no plus sign on unsigned types: the library refuses it there, which C10 allows it to)
+							if strings.HasPrefix(v, "-") {
+								v = "-0" + v[1:]
+							} else if r.Intn(2) == 0 && !strings.HasPrefix(ks.Type.Base, "u") {
+								v = "+" + v
+							} else {
+								v = "00" + v
+							}
+						case "decimal64":
+							if strings.Contains(v, ".") {
+								v += "0"
+							} else {
+								v += ".0"
+							}
+						}
+						e.Leaves[kn] = &dp.LVal{V: []string{v}}
+					}
+					respell(e)
+				}
+			}
+			for _, k := range d.Kids {
+				respell(k)
+			}
+		}
+		respell(spelled)
+		doc := dp.EncodeXML(s, "data", spelled, nil)
+		mkBrowser = func() *node.Browser {
+			n, err := nodeutil.ReadXMLDoc(strings.NewReader(doc))
+			if err != nil {
+				panic("harness: ReadXMLDoc of reference encoding: " + err.Error())
+			}
+			return node.NewBrowser(s.Mod, n)
+		}
+	}
 	wit := func() string { return "schema:\n" + s.Yang() + s.SubYang() + "tree:\n" + t.Dump(s) }
 	c.SetSample(map[string]interface{}{"yang": head(s.Yang(), 1200), "tree": head(t.Dump(s), 1200)})
 
@@ -641,7 +692,7 @@ func (pp c08) Run(c *core.Ctx, idx int) {
 		} else if d := dp.Diff(s, pristine, snap, dp.CmpOpts{IgnoreListOrder: true, EmptyListIsAbsent: true}); d != "" && gm.Shape == "map" {
 			c.Violate("navigation-modified-data/"+storeName, "the store changed while navigating:\n%s\n%s", d, wit())
 		}
-	} else if !useJSON {
+	} else if !useJSON && !useXML {
 		if d := dp.Diff(s, pristine, store.Root, dp.CmpOpts{}); d != "" {
 			c.Violate("navigation-modified-data", "the store changed while navigating:\n%s\n%s", d, wit())
 		}
